@@ -565,7 +565,9 @@ def run(prog: Program, ctx: Ctx, max_steps=200000, routine_info=None, sanitize=T
                             break
                     if routine_info is not None:
                         info = routine_info(f.label)
-                        if info is not None and (consumed, produced) != tuple(info):
+                        # judged on the net effect and on not reaching below the arguments: a routine may legitimately leave an
+                        # argument cell in place as its result (the slot optimiser turns 'store a; load a; retsub' into 'retsub')
+                        if info is not None and (produced - consumed != info[1] - info[0] or consumed > info[0]):
                             report("boundary", "routine %s consumed %d / produced %d, declared %s"
                                    % (f.label, consumed, produced, tuple(info)))
                 calls.append((f.label, consumed, produced))
